@@ -18,6 +18,10 @@ var AverageRequired = AveragePeriod / 2 // If we have at least half the rates, w
 //
 // Also note that if asked twice about the same height, we cache the response.
 func (d *Pegnetd) GetPegNetRateAverages(ctx context.Context, height uint32) (Avg interface{}) {
+	// The cache is read and rewritten below; the API goroutines and the sync loop both get
+	// here. The map that is returned is never modified afterwards (each call builds a new one).
+	d.averagesMu.Lock()
+	defer d.averagesMu.Unlock()
 
 	if d.LastAveragesHeight == height { //                      If a cache hit is detected, return the cache value
 		return d.LastAverages
